@@ -1533,3 +1533,21 @@ V("r4-c16-isclique-matrix-block-other-order", "C16", "fire", UT, "    subgraph =
   rule=None, what="rows and columns in different orders: A + A.T no longer pairs (i, j) with (j, i)")
 V("t-c11-inverse-relabelling-consistent", "C11", "silent", GE, "    permutation = rng.permutation(p)\n    # Note the actual topological ordering is the \"conjugate\" of permutation eg. [3,1,2] -> [2,3,1]\n    if return_ordering:\n        return (W[permutation, :][:, permutation], np.argsort(permutation))\n    else:\n        return W[permutation, :][:, permutation]",
   "    permutation = rng.permutation(p)\n    permuted = np.zeros_like(W)\n    permuted[np.ix_(permutation, permutation)] = W\n    if return_ordering:\n        return (permuted, permutation)\n    else:\n        return permuted", what="graph relabelled with the inverse permutation, and the permutation returned as its ordering: consistent")
+
+# ---- Kahn's algorithm with parent counters only (no edge is deleted): written independently by four refactoring agents of round 5
+_KAHN_OLD = "    A = A.copy()\n    sinks = list(np.where(A.sum(axis=0) == 0)[0])\n    ordering = []\n    while len(sinks) > 0:\n        i = sinks.pop()\n        ordering.append(i)\n        for j in ch(i, A):\n            A[i, j] = 0\n            if len(pa(j, A)) == 0:\n                sinks.append(j)\n    # If A still contains edges there is at least one cycle\n    if A.sum() > 0:\n"
+
+
+def _kahn_counters(count="A.sum(axis=0)", dec="            pending[j] -= 1\n", ready="pending[j] == 0", children="ch(i, A)", left="pending.sum() > 0"):
+    return ("    pending = %s\n    sinks = list(np.where(pending == 0)[0])\n    ordering = []\n    while len(sinks) > 0:\n        i = sinks.pop()\n        ordering.append(i)\n"
+            "        for j in %s:\n%s            if %s:\n                sinks.append(j)\n    # If some edge was never visited there is at least one cycle\n    if %s:\n" % (count, children, dec, ready, left))
+
+
+V("r5-c03-kahn-counters", "C03", "silent", UT, _KAHN_OLD, _kahn_counters(), what="parent counters instead of edge deletion")
+V("r5-c03-kahn-counters-count-test", "C03", "silent", UT, _KAHN_OLD, _kahn_counters(left="len(ordering) < len(A)"), what="counters, leftover test by the number of emitted nodes")
+V("r5-c03-kahn-counters-outdegree", "C03", "fire", UT, _KAHN_OLD, _kahn_counters(count="A.sum(axis=1)"), rule="KAHN", what="counters start as out-degrees", accept_inconclusive=True)
+V("r5-c03-kahn-counters-no-decrement", "C03", "fire", UT, _KAHN_OLD, _kahn_counters(dec=""), rule="KAHN", what="counter never decremented", accept_inconclusive=True)
+V("r5-c03-kahn-counters-conditional-decrement", "C03", "fire", UT, _KAHN_OLD, _kahn_counters(dec="            if j > i:\n                pending[j] -= 1\n"), rule="KAHN.remove-edge", what="decrement only for some edges")
+V("r5-c03-kahn-counters-ready-le-one", "C03", "fire", UT, _KAHN_OLD, _kahn_counters(ready="pending[j] <= 1"), rule="KAHN.ready", what="ready one parent too early")
+V("r5-c03-kahn-counters-parents", "C03", "fire", UT, _KAHN_OLD, _kahn_counters(children="pa(i, A)"), rule="KAHN.children", what="walks to the parents")
+V("r5-c03-kahn-counters-no-leftover", "C03", "fire", UT, _KAHN_OLD, _kahn_counters(left="False"), rule=None, what="cycle test disabled", accept_inconclusive=True)
